@@ -106,7 +106,9 @@ pub fn observe<K: KeyT, S: Sut<K>>(c: &S, uni: &[u64], fl: &Flags, ids: &mut Add
         let n: usize = c.parts().iter().map(|p| p.1.len()).sum();
         let a = c.audits().len();
         let k = uni.iter().filter(|&&k| c.c_contains(k) && c.c_peek(k).is_some()).count();
-        return json!({"light": n + a + k + c.c_len() + c.c_cap() + c.c_empty() as usize, "empty": c.c_empty()});
+        // (wrapping: cap() may be usize::MAX after resize(usize::MAX))
+        let sum = n.wrapping_add(a).wrapping_add(k).wrapping_add(c.c_len()).wrapping_add(c.c_cap()).wrapping_add(c.c_empty() as usize);
+        return json!({"light": sum, "empty": c.c_empty()});
     }
     let mut m = Map::new();
     let parts = c.parts();
